@@ -148,4 +148,120 @@ def generate(defname='field_codec_sources_src'):
     out.append(';\n'.join(f'  ({coq_string(k)},\n   {coq_string(v)})' for k, v in items.items()))
     out.append('].')
     out.append('')
+    out.append(generate_facts('parser_entry_facts_src' if defname.endswith('_src') else 'parser_entry_facts'))
+    return '\n'.join(out)
+
+
+# ----------------------------------------------------------------------------- parser entry points: no caching, pinned state reads
+ALLOWED_DECORATORS = {'classmethod', 'staticmethod'}
+CACHING = {'lru_cache', 'cache', 'cached_property', 'functools.lru_cache', 'functools.cache', 'functools.cached_property'}
+
+
+def _entry_points():
+    """(key, owner class or None, module, function name) of every parser entry point in the C18 scope"""
+    from bumble import l2cap, att, smp, sdp, rfcomm, core, hci, avdtp, avctp, avrcp, avc, rtp, a2dp
+    eps = []
+
+    def add(mod, cls, *names):
+        for n in names:
+            eps.append((f'{mod.__name__}:{cls.__name__ + "." if cls else ""}{n}', cls, mod, n))
+    add(l2cap, l2cap.EnhancedControlField, 'from_bytes')
+    add(l2cap, l2cap.InformationEnhancedControlField, 'from_bytes')
+    add(l2cap, l2cap.SupervisoryEnhancedControlField, 'from_bytes')
+    add(l2cap, l2cap.L2CAP_PDU, 'from_bytes')
+    add(l2cap, l2cap.L2CAP_Control_Frame, 'from_bytes', 'decode_configuration_options')
+    add(l2cap, l2cap.L2CAP_Connection_Request, 'parse_psm')
+    add(l2cap, l2cap.L2CAP_Credit_Based_Connection_Request, 'parse_cid_list')
+    add(att, att.ATT_PDU, 'from_bytes')
+    add(att, att.ATT_Read_Multiple_Variable_Response, '_parse_length_value_tuples')
+    add(smp, smp.SMP_Command, 'from_bytes')
+    add(sdp, sdp.SDP_PDU, 'from_bytes')
+    add(sdp, sdp.DataElement, 'from_bytes', 'parse_from_bytes', 'unsigned_integer_from_bytes', 'signed_integer_from_bytes')
+    add(sdp, sdp.DataElementParser, 'parse_next', '_list_from_bytes')
+    add(sdp, None, '_parse_service_record_handle_list', '_parse_bytes_preceded_by_length')
+    add(rfcomm, rfcomm.RFCOMM_Frame, 'from_bytes', 'parse_mcc')
+    add(rfcomm, rfcomm.RFCOMM_MCC_PN, 'from_bytes')
+    add(rfcomm, rfcomm.RFCOMM_MCC_MSC, 'from_bytes')
+    add(rfcomm, None, 'compute_fcs')
+    add(core, core.AdvertisingData, 'from_bytes', 'append')
+    add(core, core.UUID, 'from_bytes', 'parse_uuid', 'parse_uuid_2', 'register')
+    add(hci, hci.Address, 'parse_address', 'parse_random_address', 'parse_address_with_type', 'parse_address_preceded_by_type')
+    add(hci, hci.HCI_Object, 'parse_field', 'dict_and_offset_from_bytes', 'dict_from_bytes')
+    add(avdtp, avdtp.EndPointInfo, 'from_bytes')
+    add(avdtp, avdtp.ServiceCapabilities, 'create', 'parse_capabilities')
+    add(avdtp, avdtp.MediaCodecCapabilities, 'from_bytes')
+    add(avdtp, avdtp.Message, 'create')
+    add(avdtp, avdtp.Discover_Response, 'parse_endpoints')
+    add(avdtp, avdtp.MessageAssembler, 'on_pdu')
+    add(avctp, avctp.MessageAssembler, 'on_pdu')
+    add(avrcp, avrcp.Command, 'from_bytes')
+    add(avrcp, avrcp.Response, 'from_bytes', 'from_parameters')
+    add(avrcp, avrcp.Event, 'from_bytes')
+    add(avrcp, avrcp.BrowseableItem, 'parse_from_bytes')
+    add(avrcp, None, '_parse_string')
+    add(avc, avc.Frame, 'from_bytes')
+    add(avc, avc.PassThroughFrame, 'parse_operands')
+    add(rtp, rtp.MediaPacket, 'from_bytes')
+    add(a2dp, a2dp.MediaCodecInformation, 'create')
+    add(a2dp, a2dp.SbcMediaCodecInformation, 'from_bytes')
+    add(a2dp, a2dp.AacMediaCodecInformation, 'from_bytes')
+    add(a2dp, a2dp.VendorSpecificMediaCodecInformation, 'from_bytes')
+    return eps
+
+
+def _def_node(mod, cls, name):
+    """the FunctionDef as written in the class body / module (decorators included)"""
+    tree = _module_ast(mod)
+    if cls is None:
+        cands = [n for n in tree.body if isinstance(n, ast.FunctionDef) and n.name == name]
+    else:
+        # the class that actually defines the attribute
+        owner = next((k for k in cls.__mro__ if name in vars(k)), None)
+        if owner is None:
+            raise SrcError(f'{cls.__name__}.{name} is not defined')
+        omod = sys.modules[owner.__module__]
+        cands = [f for c in ast.walk(_module_ast(omod)) if isinstance(c, ast.ClassDef) and c.name == owner.__name__
+                 for f in c.body if isinstance(f, ast.FunctionDef) and f.name == name]
+        mod = omod
+    if len(cands) != 1:
+        raise SrcError(f'{mod.__name__}:{cls.__name__ + "." if cls else ""}{name}: {len(cands)} definitions found')
+    return cands[0], mod
+
+
+def entry_facts():
+    """{key: 'decorators=..; state=..'}: the decorators of every parser entry point (only classmethod /
+    staticmethod are accepted: anything else - a cache above all - aborts) and the mutable module- or
+    class-level containers its body reads (class dispatch tables and the UUID registry are expected;
+    the list is pinned)"""
+    out = {}
+    for key, cls, mod, name in _entry_points():
+        node, dmod = _def_node(mod, cls, name)
+        decs = [ast.unparse(d) for d in node.decorator_list]
+        # not raised here: a decorator other than classmethod / staticmethod (a cache above all) is
+        # recorded as it stands, so the obligation parser_entry_facts_src = parser_entry_facts fails
+        # and names it, and the history oracle of the harness still runs and produces the replay
+        decs = [d if d.split('(')[0] in ALLOWED_DECORATORS else
+                ('CACHING:' if d.split('(')[0].split('.')[-1] in {'lru_cache', 'cache', 'cached_property'} else 'UNRECOGNISED:') + d
+                for d in decs]
+        reads = set()
+        for n in ast.walk(node):
+            tgt = None
+            if isinstance(n, ast.Attribute) and isinstance(n.value, ast.Name) and isinstance(n.ctx, ast.Load):
+                base = getattr(dmod, n.value.id, None) if n.value.id not in ('self', 'cls') else cls
+                if inspect.isclass(base) and isinstance(getattr(base, n.attr, None), (dict, list, set)):
+                    tgt = f'{base.__name__}.{n.attr}'
+            elif isinstance(n, ast.Name) and isinstance(n.ctx, ast.Load) and isinstance(getattr(dmod, n.id, None), (dict, list, set)):
+                tgt = n.id
+            if tgt:
+                reads.add(tgt)
+        out[key] = 'decorators=[' + ', '.join(decs) + ']; state=[' + ', '.join(sorted(reads)) + ']'
+    return dict(sorted(out.items()))
+
+
+def generate_facts(defname='parser_entry_facts_src'):
+    items = entry_facts()
+    out = [f'Definition {defname} : list (string * string) := [']
+    out.append(';\n'.join(f'  ({coq_string(k)}, {coq_string(v)})' for k, v in items.items()))
+    out.append('].')
+    out.append('')
     return '\n'.join(out)
